@@ -5,7 +5,7 @@
  * HCIcnbit_init must therefore produce, byte by byte from the most significant byte down,
  *   mask_info[i].mask   = the bits of byte i that lie in the field,
  *   mask_info[i].offset = position (7..0) of the highest field bit in byte i,
- *   mask_info[i].length = number of field bits in byte i            (both 0 where none),
+ *   mask_info[i].length = number of field bits in byte i   (0 where none; offset then unused),
  *   mask_buf[i]         = fill pattern outside the field: ~mask if fill_one else 0.
  * Ghost byte index g_i and ghost bit index g_p: a proof for arbitrary (g_i, g_p) covers all bits.
  */
@@ -121,7 +121,9 @@ static int32 HCIcnbit_init(accrec_t *access_rec)
                       (NB_HI(NB(access_rec), g_i) >= NB_LO(NB(access_rec), g_i)
                            ? (NBF(access_rec, mask_info)[g_i].offset == NB_HI(NB(access_rec), g_i) &&
                               NBF(access_rec, mask_info)[g_i].length == NB_HI(NB(access_rec), g_i) - NB_LO(NB(access_rec), g_i) + 1)
-                           : (NBF(access_rec, mask_info)[g_i].offset == 0 && NBF(access_rec, mask_info)[g_i].length == 0)))
+                           /* no field bit in this byte: length 0 (offset is then never used: the code leaves 7
+                              in the byte after a field that ends on a byte boundary) */
+                           : NBF(access_rec, mask_info)[g_i].length == 0))
     /* fill pattern outside the field */
     __CPROVER_ensures(__CPROVER_return_value == SUCCEED ==>
                       NBF(access_rec, mask_buf)[g_i] ==
